@@ -64,7 +64,7 @@ v("c11-recordmap-guard-reverted", "C11", "cdata.py",
   "        if self.blocks_out is not None:\n            if self.blocks_out != other.blocks_out:",
   "        if self.blocks_in is not None:\n            if self.blocks_out != other.blocks_out:")
 v("c11-listterm-eq-reverted", "C11", "expr_rep.py",
-  "        if len(self.value) != len(other.value):\n            return False\n        for lft, rgt in zip(self.value, other.value):\n            if isinstance(lft, PreTerm):\n                if not lft.is_equal(rgt):\n                    return False\n            elif isinstance(rgt, PreTerm) or (lft != rgt):\n                return False\n        return True",
+  "        if len(self.value) != len(other.value):\n            return False\n        for lft, rgt in zip(self.value, other.value):\n            if isinstance(lft, PreTerm):\n                if not lft.is_equal(rgt):\n                    return False\n            elif isinstance(rgt, PreTerm) or (not _same_literal(lft, rgt)):\n                return False\n        return True",
   "        return self.value == other.value")
 v("c11-expression-drops-op", "C11", "expr_rep.py",
   "        if self.op != other.op:\n            return False\n        if self.inline != other.inline:",
@@ -881,3 +881,14 @@ v("d51-pandas-rename-first", "C08", PB,
   "        res = res.rename(columns=op.column_remapping)\n        if (op.column_deletions is not None) and (len(op.column_deletions) > 0):\n            column_selection")
 v("d51-polars-no-delete-before-rename", "C08", PM,
   "            res = res.select([c for c in res.columns if c not in op.column_deletions])\n        res = res.rename(op.column_remapping)", "            pass\n        res = res.rename(op.column_remapping)")
+
+v("d52-value-equality-by-python-eq", "C11", ER, "        return _same_literal(self.value, other.value)\n", "        return self.value == other.value\n")
+v("d52-list-equality-by-python-ne", "C11", ER, "            elif isinstance(rgt, PreTerm) or (not _same_literal(lft, rgt)):", "            elif isinstance(rgt, PreTerm) or (lft != rgt):")
+v("d52-dict-values-unexamined", "C11", ER,
+  "            if not (_same_literal(k_lft, k_rgt) and _same_literal(v_lft, v_rgt)):\n                return False\n", "            pass\n")
+v("d52-helper-ignores-second-argument", "C11", ER,
+  "    return (type(a) == type(b)) and (a.__repr__() == b.__repr__())", "    return (type(a) == type(a)) and (a.__repr__() == a.__repr__())")
+v("d52-twin-repr-builtin", "C11", ER,
+  "    return (type(a) == type(b)) and (a.__repr__() == b.__repr__())", "    return (type(a) == type(b)) and (repr(a) == repr(b))", expect="silent")
+v("d53-limit-stored-as-given", "C11", VR,
+  "        if limit is not None:\n            if int(limit) != limit:\n                raise ValueError(\"limit must be an integer\")\n            limit = int(limit)\n", "")
